@@ -208,4 +208,32 @@ func runC04(l *core.Ledger) {
 	// handler start, also for a handler that released early and replies later
 	l.With(map[string]string{"C03-F5": "C04-H5"}, func() { c03F5(l, sl) })
 	c03F9(l, sl, "C04-H3")
+	// who may release: the handler (generated: defer ctx.Release(); a library handler: C03-F9) and user
+	// code. Library code on the reply path (SendMessage, WrapMessage, the reply pump) must not: a
+	// streaming handler that sends its first update would let the next handler start while it runs
+	for _, f := range allFuncs(l.Prog, r.pkg) {
+		f := f
+		isLibHandler := false
+		for _, g := range sl.goH {
+			for _, o := range sx.Origins(g.Call.Value) {
+				if o.V == ssa.Value(f) {
+					isLibHandler = true
+				}
+			}
+		}
+		if isLibHandler {
+			continue
+		}
+		sx.AllInstrs(f, func(_ sx.Node, in ssa.Instruction) {
+			cc := sx.CallOf(in)
+			if cc == nil {
+				return
+			}
+			cs := cc.StaticCallee()
+			if cs == nil || cs.Name() != "Release" || cs.Signature.Recv() == nil || !isNamed(cs.Signature.Recv().Type(), core.RootModule, "ServerCtx") {
+				return
+			}
+			l.Bad("C04-H2", fnKey(f)+"/releases", sx.PosOf(in), "library code calls ServerCtx.Release on the handler's behalf ("+fnKey(f)+"): the connection is released at a point the handler did not choose - a server-stream handler that has sent its first update no longer holds it, and the next request's handler starts while it is still running and has not released")
+		})
+	}
 }
